@@ -29,6 +29,8 @@ CONSTANTS
   FracNum, FracDen,  \* EvictFraction = FracNum / FracDen
   Strategy,      \* "expired" | "lru" | "lfu"
   EvictNeeded,   \* BOOLEAN: EvictionNeeded callback configured (may answer TRUE)
+  FloatSlack,    \* BOOLEAN: the evicted amount may be off by one entry (the code computes it in floating point;
+                 \* C12 says "within one entry"); FALSE where the parameters make floating point exact
   MaxNow,
   MaxOps         \* bound on the operation counter (only used by CONSTRAINT / generators)
 
@@ -225,14 +227,15 @@ Cleanup(needed) ==
       n1 == Cardinality(Used(s1))
       co == CountLimit > 0 /\ n1 > CountLimit
       trig == co \/ needed
-      ne == IF trig THEN EvictCount(n1, co) ELSE 0
+      ex == IF trig THEN EvictCount(n1, co) ELSE 0
+      nes == IF FloatSlack /\ trig THEN {x \in {ex - 1, ex, ex + 1} : x >= 0 /\ x <= n1} ELSE {ex}
   IN
   /\ needed => EvictNeeded
-  /\ \E R \in EvictChoices(s1, ne) :
-        slot' = [h \in Slots |-> IF h \in R THEN None ELSE s1[h]]
-  /\ met' = IF trig THEN Bump(met, "evict", ne) ELSE met
-  /\ cnt' = Bump(cnt, "evicted", ne)
-  /\ reply' = Rep("n", NoVal, 0, ne)
+  /\ \E ne \in nes : \E R \in EvictChoices(s1, ne) :
+        /\ slot' = [h \in Slots |-> IF h \in R THEN None ELSE s1[h]]
+        /\ met' = IF trig THEN Bump(met, "evict", ne) ELSE met
+        /\ cnt' = Bump(cnt, "evicted", ne)
+        /\ reply' = Rep("n", NoVal, 0, ne)
   /\ op' = Op("Cleanup", "", NoVal, 0, needed)
   /\ clk' = clk + 1
   /\ UNCHANGED <<now, expSeen>>
